@@ -13,15 +13,18 @@ import sys
 from gemato.exceptions import UnsupportedCompression
 
 
-# NB: bz2 (and gzip in py<3.8) uses generic OSError
+# NB: bz2 (and gzip in py<3.8) uses generic OSError;
+# truncated streams raise EOFError in all of them
 if sys.hexversion >= 0x03080000:
     InvalidCompressedFileExceptions = (
         gzip.BadGzipFile,
         lzma.LZMAError,
+        EOFError,
     )
 else:
     InvalidCompressedFileExceptions = (
         lzma.LZMAError,
+        EOFError,
     )
 
 
